@@ -9,57 +9,109 @@
 (*  {"ev":"abs","epoch":e,"sub":r,"slot":b}   b = relative_slot_to_absolute(e, r), *)
 (*        called with the result of the preceding "rel"                      *)
 (*  {"ev":"wall","slot":s,"t0":a,"t1":b}      a, b = slot_to_wallclock(s), (s+1) *)
+(*  {"ev":"panic","net":N,"call":C,..}        the call panicked              *)
 (*  {"ev":"reset"}                                                           *)
-(* Strict = FALSE: only what C32 states is demanded (verdict).               *)
-(* Strict = TRUE : additionally the design model (epoch is the quotient, the *)
-(*                 clock is the linear formula) - a rejection there is DRIFT. *)
+(* The whole trace is consumed in one run.  A call that satisfies what C32   *)
+(* states is matched by the conforming branch; a call that does not is       *)
+(* consumed by the classifying branch, which records the class key           *)
+(*      <kind>/<network>/<era | era-boundary>                                *)
+(* in `bad` and prints it once ("CLASS|key|event index"); bin/check turns    *)
+(* every class into a report.  Deviations from the design model (epoch is    *)
+(* the quotient, the clock is the linear formula) are collected the same way *)
+(* in `drift` ("DRIFT|..."), they are never a verdict.  Only a structurally  *)
+(* impossible event (unknown kind, "abs" without its "rel") stops the run.   *)
 EXTENDS SlotTimeBig, TraceKit
-
-CONSTANT Strict
 
 VARIABLES G,      \* genesis record of the current network (big form)
           e0,     \* reported first Shelley epoch
+          net,    \* name of the current network
           pend,   \* last "rel" call not yet converted back
+          bad,    \* classes of calls that break C32
+          drift,  \* classes of calls that deviate from the design model only
+          cnt,    \* number of calls per class in `bad`
           l
-tvars == <<G, e0, pend, l>>
+tvars == <<G, e0, net, pend, bad, drift, cnt, l>>
 
 IsEvent(e) == l <= NRec /\ Rec[l].ev = e /\ l' = l + 1
 
 NoNet == [bsl |-> 1, bel |-> 1, ssl |-> 1, sel |-> 1, bks |-> B!Zero, bkt |-> B!Zero, sks |-> B!Zero, skt |-> B!Zero]
 NoPend == [open |-> FALSE]
-TInit == G = NoNet /\ e0 = B!Zero /\ pend = NoPend /\ l = 1
+TInit == /\ G = NoNet /\ e0 = B!Zero /\ net = "none" /\ pend = NoPend
+         /\ bad = {} /\ drift = {} /\ cnt = <<>> /\ l = 1
+
+Key(kind, where) == kind \o "/" \o net \o "/" \o where
+\* record a class (printing it the first time it is seen)
+Classify(key) ==
+    /\ IF key \in bad THEN TRUE ELSE PrintT("CLASS|" \o key \o "|" \o ToString(l))
+    /\ bad' = bad \cup {key}
+    /\ cnt' = IF key \in DOMAIN cnt THEN [cnt EXCEPT ![key] = @ + 1] ELSE cnt @@ (key :> 1)
+    /\ drift' = drift
+Conform(designOK, dkey) ==
+    /\ bad' = bad /\ cnt' = cnt
+    /\ IF designOK THEN drift' = drift
+       ELSE /\ IF dkey \in drift THEN TRUE ELSE PrintT("DRIFT|" \o dkey \o "|" \o ToString(l))
+            /\ drift' = drift \cup {dkey}
+
+\* relative_slot_to_absolute as designed (= ToAbs of SlotTime.tla for Divisible records)
+ToAbsB(e, sub) ==
+    IF B!Lt(e, e0) THEN B!Add(B!Mul(e, Big(EpochSlots(G, "byron"))), sub)
+    ELSE B!Add(B!Add(B!Mul(e0, Big(EpochSlots(G, "byron"))),
+                     B!Mul(B!Sub(e, e0), Big(EpochSlots(G, "shelley")))), sub)
+
+WallWhere(s) == IF B!Add(s, Big(1)) = G.sks THEN "era-boundary" ELSE EraOfB(G, s)
 
 TNet ==
     /\ IsEvent("net")
-    /\ G' = Rec[l].g /\ e0' = Rec[l].e0 /\ pend' = NoPend
+    /\ G' = Rec[l].g /\ e0' = Rec[l].e0 /\ net' = Rec[l].name /\ pend' = NoPend
     /\ Divisible(G')
-    /\ Strict => IsStartEpochB(G', e0')
+    /\ bad' = bad /\ cnt' = cnt
+    /\ IF IsStartEpochB(G', e0') THEN drift' = drift
+       ELSE drift' = drift \cup {"start-epoch/" \o Rec[l].name}
 
 TRel ==
     /\ IsEvent("rel")
-    /\ LET r == Rec[l] IN
-         /\ SubInRangeB(G, r.slot, r.sub)
-         /\ Strict => RelOKB(G, e0, r.slot, r.epoch, r.sub)
-         /\ pend' = [open |-> TRUE, slot |-> r.slot, epoch |-> r.epoch, sub |-> r.sub]
-    /\ UNCHANGED <<G, e0>>
+    /\ LET r == Rec[l]
+           ok == SubInRangeB(G, r.slot, r.sub)
+       IN /\ pend' = [open |-> TRUE, ok |-> ok, slot |-> r.slot, epoch |-> r.epoch, sub |-> r.sub]
+          /\ IF ok THEN Conform(RelOKB(G, e0, r.slot, r.epoch, r.sub), Key("rel-design", EraOfB(G, r.slot)))
+                   ELSE Classify(Key("rel", EraOfB(G, r.slot)))
+    /\ UNCHANGED <<G, e0, net>>
 
+\* The round trip.  When the preceding "rel" already left the range (its class
+\* is recorded) the pair handed to relative_slot_to_absolute is not one C32
+\* speaks about: the failure of the round trip is then attributed to "rel" -
+\* provided the inverse did what it is designed to do with that pair.
 TAbs ==
     /\ IsEvent("abs") /\ pend.open
-    /\ LET r == Rec[l] IN
-         /\ r.epoch = pend.epoch /\ r.sub = pend.sub
-         /\ RoundTripB(G, pend.slot, r.slot)
+    /\ LET r == Rec[l]
+           explained == ~pend.ok /\ IsStartEpochB(G, e0) /\ r.slot = ToAbsB(r.epoch, r.sub)
+       IN /\ r.epoch = pend.epoch /\ r.sub = pend.sub
+          /\ IF RoundTripB(G, pend.slot, r.slot) \/ explained
+             THEN Conform(TRUE, "")
+             ELSE Classify(Key("roundtrip", EraOfB(G, pend.slot)))
     /\ pend' = NoPend
-    /\ UNCHANGED <<G, e0>>
+    /\ UNCHANGED <<G, e0, net>>
 
 TWall ==
     /\ IsEvent("wall")
     /\ LET r == Rec[l] IN
-         /\ ClockStepB(G, r.slot, r.t0, r.t1)
-         /\ Strict => /\ r.t0 = WallclockB(G, r.slot)
-                      /\ r.t1 = WallclockB(G, B!Add(r.slot, Big(1)))
-    /\ UNCHANGED <<G, e0, pend>>
+         IF ClockStepB(G, r.slot, r.t0, r.t1)
+         THEN Conform(r.t0 = WallclockB(G, r.slot) /\ r.t1 = WallclockB(G, B!Add(r.slot, Big(1))),
+                      Key("wall-design", EraOfB(G, r.slot)))
+         ELSE Classify(Key("wall", WallWhere(r.slot)))
+    /\ UNCHANGED <<G, e0, net, pend>>
 
-TReset == IsEvent("reset") /\ G' = NoNet /\ e0' = B!Zero /\ pend' = NoPend
+TPanic ==
+    /\ IsEvent("panic")
+    /\ Classify("panic/" \o Rec[l].net \o "/" \o Rec[l].call)
+    /\ pend' = NoPend
+    /\ UNCHANGED <<G, e0, net>>
 
-TNext == TNet \/ TRel \/ TAbs \/ TWall \/ TReset
+TReset ==
+    /\ IsEvent("reset")
+    /\ PrintT("COUNTS|" \o ToJson(cnt))
+    /\ G' = NoNet /\ e0' = B!Zero /\ net' = "none" /\ pend' = NoPend
+    /\ UNCHANGED <<bad, drift, cnt>>
+
+TNext == TNet \/ TRel \/ TAbs \/ TWall \/ TPanic \/ TReset
 =============================================================================
